@@ -317,6 +317,12 @@ pub fn run(r: &Run) -> Outcome {
     if let Some(b) = &r.blockdev {
         cmd.env("BITA_VERIF_BLOCKDEV", b);
     }
+    if r.rlimit_as.is_some() {
+        // glibc reserves 64 MiB of address space per malloc arena (8 x cores arenas); under an
+        // address-space limit that alone exhausts the limit in a heavily threaded process and
+        // shows up as a bogus "memory allocation failed". Keep the arena count small.
+        cmd.env("MALLOC_ARENA_MAX", "2");
+    }
     for (k, v) in &r.extra_env {
         cmd.env(k, v);
     }
@@ -339,7 +345,8 @@ pub fn run(r: &Run) -> Outcome {
                 libc::setrlimit(res, &lim);
             };
             if let Some(c) = cpu {
-                set(libc::RLIMIT_CPU, c);
+                let lim = libc::rlimit { rlim_cur: c, rlim_max: c + 2 };
+                libc::setrlimit(libc::RLIMIT_CPU, &lim);
             }
             if let Some(a) = asz {
                 set(libc::RLIMIT_AS, a);
